@@ -69,6 +69,26 @@ def handle (args : List String) : Verdict :=
       { agree := ok, propOk := ok, tag := "covrad",
         msg := s!"COVRAD {String.ofList s}: {a} ang -> nm ok={okNm} bohr ok={okBohr}" }
     | _, _, _, _ => bad "covrad fields"
+  | ["massprobe", mm, me, tm, te, hb, assoc] =>
+    match parseRat2 mm me, parseRat2 tm te with
+    | some m, some tol =>
+      -- nearest tabulated mass (the generated table); refused exactly when it is farther than the tolerance
+      let d := fun (x : Rat) => absRat (x - m)
+      let best := elementMass.foldl (fun (acc : Option (String × Rat)) (kv : String × Rat) => match acc with
+        | none => some kv
+        | some b => if d kv.2 < d b.2 then some kv else some b) none
+      let back := str (unhex hb)
+      match best with
+      | some (sym, bm) =>
+        let far := d bm > tol
+        let tie := (elementMass.filter fun kv => d kv.2 == d bm).length > 1
+        -- the code compares doubles: a distance within 1e-9 of the tolerance is decided by rounding and not judged
+        let edge := absRat (d bm - tol) ≤ 1 / 1000000000
+        let ok := edge || (if far then back == "!" && assoc == "0" else (tie || back == sym) && back != "!" && assoc == "1")
+        let msg := s!"ELEMENT-MASS-PROBE mass {m} (tolerance {tol}): nearest tabulated mass is {sym} at distance {d bm}; reported '{back}', associated={assoc}"
+        ({ agree := ok, propOk := ok, msg := msg, tag := if far then "mass-probe:refuse" else "mass-probe:accept" } : Verdict)
+      | none => bad "empty mass table"
+    | _, _ => bad "massprobe fields"
   | ["place", hl, kind, m, e] =>
     match parseRat2 m e with
     | none => bad "place value"
